@@ -178,6 +178,32 @@ where
         non_primitive_base.extend(plugin_prep);
     }
 
+    // A Const/Public row whose slot is already created by an earlier Const/Public row (slots
+    // aliased through `connect`, e.g. `connect(public, const)` or `connect(public, public)`)
+    // must *read* the slot (multiplicity -1) instead of creating it a second time, otherwise
+    // the WitnessChecks bus cannot balance. Each such row counts as one more read of the slot.
+    let mut created_slots: hashbrown::HashSet<usize> = hashbrown::HashSet::new();
+    let mut dup_rows: [Vec<bool>; 2] = [Vec::new(), Vec::new()];
+    for (t, table_idx) in [
+        PrimitiveOpType::Const as usize,
+        PrimitiveOpType::Public as usize,
+    ]
+    .into_iter()
+    .enumerate()
+    {
+        for out_idx in &base_prep[table_idx] {
+            let wid = out_idx.as_canonical_u64() as usize / D;
+            let is_dup = !created_slots.insert(wid);
+            if is_dup {
+                if wid >= preprocessed.ext_reads.len() {
+                    preprocessed.ext_reads.resize(wid + 1, 0);
+                }
+                preprocessed.ext_reads[wid] += 1;
+            }
+            dup_rows[t].push(is_dup);
+        }
+    }
+
     // Get min_height from packing configuration and pass it to AIRs
     let min_height = packing.min_trace_height();
 
@@ -325,11 +351,15 @@ where
                 // Public preprocessed per op from circuit.rs: 1 value (D-scaled out_idx).
                 // Convert to [ext_mult, out_idx] pairs using ext_reads.
                 let mut prep_2col: Vec<Val<SC>> = Vec::with_capacity(base_prep[idx].len() * 2);
-                for &out_idx in &base_prep[idx] {
+                for (row, &out_idx) in base_prep[idx].iter().enumerate() {
                     let out_wid =
                         (<Val<SC> as PrimeField64>::as_canonical_u64(&out_idx) as usize) / D;
                     let n_reads = preprocessed.ext_reads.get(out_wid).copied().unwrap_or(0);
-                    prep_2col.push(<Val<SC>>::from_u32(n_reads));
+                    prep_2col.push(if dup_rows[1][row] {
+                        <Val<SC>>::ZERO - <Val<SC>>::ONE
+                    } else {
+                        <Val<SC>>::from_u32(n_reads)
+                    });
                     prep_2col.push(out_idx);
                 }
 
@@ -352,10 +382,14 @@ where
                 // Const preprocessed per op from circuit.rs: 1 value (D-scaled out_idx).
                 // Convert to [ext_mult, out_idx] pairs using ext_reads.
                 let mut prep_2col: Vec<Val<SC>> = Vec::with_capacity(base_prep[idx].len() * 2);
-                for &out_idx in &base_prep[idx] {
+                for (row, &out_idx) in base_prep[idx].iter().enumerate() {
                     let out_wid = out_idx.as_canonical_u64() as usize / D;
                     let n_reads = preprocessed.ext_reads.get(out_wid).copied().unwrap_or(0);
-                    prep_2col.push(<Val<SC>>::from_u32(n_reads));
+                    prep_2col.push(if dup_rows[0][row] {
+                        <Val<SC>>::ZERO - <Val<SC>>::ONE
+                    } else {
+                        <Val<SC>>::from_u32(n_reads)
+                    });
                     prep_2col.push(out_idx);
                 }
 
